@@ -5,6 +5,16 @@ ROOT = os.path.dirname(os.path.dirname(os.path.abspath(__file__)))
 ids = [json.loads(l)["id"] for l in open(os.path.join(ROOT, "properties.jsonl"))]
 
 CLAIMED = {
+ "C10": dict(
+   text="Lean 4 theorems served_iff (full iff, every header string / token table / type list / requirement list), error_kind_mapping and "
+        "rejected_token_never_current over Model/Resource.lean, which mirrors ResourceProtector.validate_request, split(None,1), type lookup, "
+        "BearerTokenValidator.validate_token and scope_insufficient. Correspondence: header shapes × token states × scope subsets × requirement specs "
+        "against the real core ResourceProtector; RFC 9068 JWT access tokens (34 single mutations, pairs, 11 requirement specs) are decided by an "
+        "independent transcription of RFC 9068 §4 run against the real JWTBearerTokenValidator (no Lean theorem for that half).",
+   note="Trusted: Lean kernel; ASCII lower(); theorem hypothesis AltsNonEmpty (each required alternative names a word); RFC 9068 half is "
+        "correspondence + oracle only: signature primitives and jwt.decode are exercised, not modelled.",
+   technique="Lean 4 proof (bearer decision iff) + differential correspondence + independent RFC 9068 oracle",
+   design="§4 C10"),
  "C04": dict(
    text="Lean 4 theorem validate_ok_iff_conforms: for every claim dictionary, option dictionary, now and leeway, JWTClaims.validate (Model/Claims.lean, "
         "mirroring rfc7519/claims.py branch by branch) raises nothing iff the claims satisfy the property statement transcribed as the structure Conforms; "
